@@ -21,8 +21,8 @@ func TestInvalidPrograms(t *testing.T) {
 		{"case outside switch", hdr430, "", "case 1: ;", "syntax"},
 		{"type as expression", hdr430, "", "int x = float;", "syntax"},
 		{"c-style cast", hdr430, "", "float f = (float)1;", "syntax"},
-		{"hlsl type", hdr430, "", "float3 v = float3(1.0);", "undeclared"},
-		{"static qualifier", hdr430, "static int x = 1;", "", "keyword"},
+		{"hlsl type", hdr430, "", "float3 v = float3(1.0);", "syntax"},
+		{"static qualifier", hdr430, "static int x = 1;", "", "syntax"},
 		{"bad float suffix", hdr430, "", "float f = 1.0h;", "syntax"},
 		{"integer with f suffix", hdr430, "", "float f = 1f;", "syntax"},
 		{"too large literal", hdr430, "", "uint u = 4294967296u;", "literal"},
@@ -49,8 +49,8 @@ func TestInvalidPrograms(t *testing.T) {
 		{"keyword as parameter", hdr430, "void f(int buffer) { }", "", "keyword"},
 		{"keyword as function", hdr430, "void shared() { }", "", "keyword"},
 		{"keyword as struct member", hdr430, "struct S { int flat; };", "", "keyword"},
-		{"type keyword as identifier", hdr430, "", "int vec3 = 1;", "syntax"},
-		{"opaque type keyword as identifier", hdr430, "", "int sampler2D = 1;", "syntax"},
+		{"type keyword as identifier", hdr430, "", "int vec3 = 1;", "keyword"},
+		{"opaque type keyword as identifier", hdr430, "", "int sampler2D = 1;", "keyword"},
 		{"gl_ prefix", hdr430, "", "int gl_x = 1;", "reserved"},
 		{"double underscore", hdr430, "", "int a__b = 1;", "reserved"},
 		{"double underscore at start", hdr430, "void __f() { }", "", "reserved"},
@@ -189,7 +189,7 @@ func TestValidPrograms(t *testing.T) {
 		{"empty", hdr430, "", ""},
 		{"comments", hdr430, "/* block\n comment */ // line\n", "int x = 1; // trailing\n /* inline */ x++;"},
 		{"user function may overload builtin on desktop", hdr430, "float sin(float x, float y) { return x; }", "float s = sin(1.0) + sin(1.0, 2.0);"},
-		{"local hides builtin function", hdr430, "", "float fract = modf(1.5, fract);"},
+		{"local hides builtin function", hdr430, "", "float other; float fract = modf(1.5, other); float z = fract + 1.0;"},
 		{"local hides global and struct member names are free", hdr430, "struct S { int main; int x; }; int x;", "float x = 1.0; S s = S(1, 2); s.main = 3;"},
 		{"prototype then definition", hdr430, "int f(int a);\nint f(int a) { return a; }", "int x = f(1);"},
 		{"array forms", hdr430, "", "int a[2]; int[2] b; int[2] c[3]; int d[3][2]; c = d; a = b; int e[] = int[](1, 2, 3); a[0] = e.length();"},
@@ -254,7 +254,7 @@ void main() { int a = priv; S t; helper(a, 1.0, t); barrier(); }
 	}
 	type ik struct {
 		name, kind string
-		depth int
+		depth      int
 	}
 	have := map[ik]bool{}
 	for _, id := range p.Identifiers() {
